@@ -4,6 +4,7 @@ CONSTANTS
   Sizes = {0, 1, 2, 3}
   MaxFaults = 1
   FaultKinds = {"Flip", "Drop", "Dup", "Swap", "Cut"}
+  Foreign = {"from"}
   MaxHist = 99
 INVARIANTS TypeOK
 PROPERTIES Termination
